@@ -1136,3 +1136,29 @@ def _audit_cases(quick, rng):
                     steps[1] = ['acq', j + t - 1]
                 acq = steps[1][1]
                 yield dict(c, steps=_finish(steps, j + steps[-1][1][0], j + t + 3, acq, total, rng))
+
+
+# ====================================================================================================================
+# Translator tie of the COMPOSITION (appended; nothing above is changed).  Both components of the loop have generated
+# counterparts: coq/gen/QueueStepGen.v (psiaudio/queue.py, harness/C02.py translate) and coq/gen/CaptureGen.v
+# (psiaudio/pipeline.py, harness/C05.py translate).  Both are regenerated here for the tree under test, so that the theorems
+# C06_source_* of coq/Props/C06.v (coq/EndToEnd/ProofsTie.v: the schedule run with the generated queue operations and the
+# generated extract_epochs send is the hand-written composition, hence C06_end_to_end / C06_trials_in_stream hold of it)
+# are re-checked against what the source says now.
+import C02 as _C02
+import C05 as _C05
+
+TRUSTED = list(TRUSTED) + [
+    'coq/EndToEnd/ProofsTie.v source_run_steps: the glue between the two generated components is hand-written Gallina (as the '
+    'loop of harness/C06.py is hand-written Python): a queue step calls the generated method on the queue object with an emptied '
+    'recorder and appends what it notified to the deques, the device buffer is spliced / truncated as in EndToEnd/Model.v, an '
+    'acquisition step builds the feed with feed_of and calls the generated send; a send that raised leaves the generator dead. '
+    'The trusted parts of the two translators are those listed by harness/C02.py, C04.py (translate/pyqueue2coq.py) and '
+    'harness/C05.py (translate/pycapture2coq.py)']
+
+
+def translate(repo):
+    """regenerate coq/gen/QueueStepGen.v and coq/gen/CaptureGen.v from the source under test"""
+    info = {'queue': _C02.translate(repo), 'extract': _C05.translate(repo)}
+    info['gen_files'] = info['queue'].get('gen_files', []) + info['extract'].get('gen_files', [])
+    return info
